@@ -129,3 +129,127 @@ def rxMaxAlloc (max : Nat) : Nat → Reader → Nat
 
 end Packets
 end Bifrost
+
+/-! ### Writer side (`PacketConn.WriteTo`, `Session.SendMsg`, `Conn.Write`) and end of stream -/
+namespace Bifrost
+namespace Packets
+open Framing (Reader)
+
+/-- One whole-frame `Write` on the underlying stream: the frame is appended to what is on the wire. -/
+def writeFrame (wire : Bytes) (p : Bytes) : Bytes := wire ++ frame p
+
+/-- What the caller of `WriteTo` / `SendMsg` is told. -/
+inductive WriteRes where
+  | ok (n : Nat)    -- nil error, `n` = count returned
+  | err (n : Nat)   -- non-nil error, `n` = count returned
+deriving Repr, DecidableEq
+
+/-- `PacketConn.WriteTo(p)`: ONE `Write(frame p)` on the underlying stream, which takes
+`accepted` bytes (at most the frame) and reports an error iff `werr`. Result: what the caller is
+told and what reached the wire. An empty packet is not written at all. -/
+def writeTo (p : Bytes) (accepted : Nat) (werr : Bool) : WriteRes × Bytes :=
+  if p.length = 0 then (.ok 0, [])
+  else
+    let buf := frame p
+    let n := min accepted buf.length
+    if werr then (.err n, buf.take n)
+    else if n < buf.length then (.err n, buf.take n)   -- "expected conn to write %d bytes in one call"
+    else (.ok (n - 4), buf.take n)
+
+/-- `Session.SendMsg(m)` with `m.MarshalVT() = p`: ONE `Write(frame p)` (an empty message is a
+zero prefix); a short write is an error. `true` = nil error. -/
+def sendMsg (p : Bytes) (accepted : Nat) (werr : Bool) : Bool × Bytes :=
+  let buf := frame p
+  let n := min accepted buf.length
+  (!werr && !(n < buf.length), buf.take n)
+
+/-- A schedule of concurrent writers: `ws[i]` is what writer `i` still has to send; each entry of
+the schedule lets that writer perform its next whole-frame write (an entry naming an absent or
+finished writer is a no-op). Result: the packets in the order their frames reached the wire. -/
+def writeSched (ws : List (List Bytes)) : List Nat → List Bytes
+  | [] => []
+  | i :: is =>
+    match ws[i]? with
+    | some (p :: rest) => p :: writeSched (ws.set i rest) is
+    | _ => writeSched ws is
+
+/-- What the writers still hold after the schedule. -/
+def schedLeft (ws : List (List Bytes)) : List Nat → List (List Bytes)
+  | [] => ws
+  | i :: is =>
+    match ws[i]? with
+    | some (_ :: rest) => schedLeft (ws.set i rest) is
+    | _ => schedLeft ws is
+
+/-- The wire after a sequence of whole-frame writes. -/
+def wireOf (out : List Bytes) : Bytes := out.foldl writeFrame []
+
+/-- Outcome of `Conn.Write`. -/
+inductive ConnWriteRes where
+  | ok (n : Nat)    -- (n, nil)
+  | err (n : Nat)   -- (n, err): the underlying writer's error
+  | spin            -- script exhausted: the Go loop is still calling Write
+deriving Repr, DecidableEq
+
+/-- The loop of `Conn.Write`: `script` lists, per underlying `Write` call, how many bytes that
+call accepts and whether it reports an error. `rem` = `pkt[written:]`, `wire` = bytes accepted so far. -/
+def connWriteLoop : List (Nat × Bool) → Bytes → Bytes → Nat → ConnWriteRes × Bytes
+  | _, [], wire, written => (.ok written, wire)
+  | [], _ :: _, wire, _ => (.spin, wire)
+  | (k, e) :: script, x :: xs, wire, written =>
+    let rem := x :: xs
+    let n := min k rem.length
+    if e then (.err (written + n), wire ++ rem.take n)
+    else connWriteLoop script (rem.drop n) (wire ++ rem.take n) (written + n)
+
+/-- `Conn.Write(pkt)` against an underlying writer behaving as `script`. -/
+def connWrite (script : List (Nat × Bool)) (pkt : Bytes) : ConnWriteRes × Bytes :=
+  connWriteLoop script pkt [] 0
+
+/-- Result of one `Conn.Read` once the end of the stream is taken into account. -/
+inductive ReadRes where
+  | data (b : Bytes) (short : Bool)
+  | ended (e : Option Nat)   -- `none` = io.EOF, `some c` = the underlying reader's error `c`
+deriving Repr, DecidableEq
+
+/-- Successive `Conn.Read` calls when the underlying reader ends with `e` after the queued
+pieces `q`: the queue is drained first, every later read reports the end condition. -/
+def connReadsEnd (q : List Bytes) (e : Option Nat) : List Nat → List ReadRes
+  | [] => []
+  | b :: bs =>
+    match q with
+    | [] => .ended e :: connReadsEnd [] e bs
+    | p :: q' => .data (p.take b) (decide (b < p.length)) :: connReadsEnd q' e bs
+
+end Packets
+end Bifrost
+
+/-! ### Allocation trace of a `Session.RecvMsg` read loop (C40) -/
+namespace Bifrost
+namespace Packets
+open Framing (Reader)
+
+/-- Sizes of the receive buffers a `Session.RecvMsg` read loop allocates, one per non-empty
+message, in order, until the stream ends, a length prefix is rejected, or a message fails to
+decode. `oks` = for each fully received non-empty message, whether `UnmarshalVT` accepted it
+(the read loops of floodsub and of the solicit control stream stop at the first failure); with
+no information the message is taken to decode. -/
+def recvAllocs (max : Nat) : Nat → Reader → List Bool → List Nat
+  | 0, _, _ => []
+  | fuel + 1, r, oks =>
+    match readFull r 4 [] with
+    | .ok h r1 =>
+      let n := unle32 h
+      if n = 0 then recvAllocs max fuel r1 oks
+      else if n > max then []
+      else match readFull r1 n [] with
+        | .ok _ r2 =>
+          match oks with
+          | false :: _ => [n]
+          | _ :: oks' => n :: recvAllocs max fuel r2 oks'
+          | [] => n :: recvAllocs max fuel r2 []
+        | _ => [n]
+    | _ => []
+
+end Packets
+end Bifrost
